@@ -86,9 +86,25 @@ def quiet():
     return contextlib.redirect_stdout(io.StringIO())
 
 
-def apply_pass(name, block):
+_DECOY = []
+
+
+def apply_pass(name, block, foreign=False):
+    """foreign=True: the pass is called on `block` while ANOTHER (unrelated, non-empty) design is the working block -- every
+    pass takes the block to work on as an argument, so nothing it does may go through the working block"""
+    if foreign and name != 'optimize':
+        if not _DECOY:
+            decoy = pyrtl.Block()
+            with pyrtl.set_working_block(decoy, no_sanity_check=True):
+                x = pyrtl.Input(3, 'decoy_in')
+                o = pyrtl.Output(4, 'decoy_out')
+                o <<= (x + x) & (x + x)
+            _DECOY.append(decoy)
+        target = _DECOY[0]
+    else:
+        target = block
     with quiet():
-        with pyrtl.set_working_block(block, no_sanity_check=True):
+        with pyrtl.set_working_block(target, no_sanity_check=True):
             if name == 'optimize':
                 pyrtl.optimize(block=block)
             elif name == 'constant_propagation':
@@ -1082,7 +1098,9 @@ def run(ctx):
                     before = net_stats(b)
                     regs_before = len(b.wirevector_subset(pyrtl.Register))
                     try:
-                        apply_pass(pname, b)
+                        # every other design: the constituent passes run while another design is the working block
+                        apply_pass(pname, b, foreign=(i % 2 == 1))
+                        ctx.count('pass_called_while_not_working_block', i % 2 == 1 and pname != 'optimize')
                     except Exception as e:
                         run_['error'] = (type(e).__name__, str(e)[:200], traceback.format_exc()[-600:],
                                          has_multibit_const_nand(b), has_dup_const_memwrite(b))
